@@ -175,6 +175,73 @@ fn enumerated_address_histories(rep: &mut Report, args: &Args, prop: &'static st
     }
 }
 
+/// Enumerated short histories around one event X of author 0: every sequence of five (thorough: six) operations out of
+/// "store X", "own deletion request naming X", "deletion request of another author naming X (and an absent id)",
+/// "remove_event(X)", "store a newer plain event of author 0" - forty such X per store, under the oracles of the
+/// property named. Refusals of every kind meet every state X can be in (absent, stored, removed, marked).
+fn enumerated_id_histories(rep: &mut Report, args: &Args, prop: &'static str, cmd: &str, flags: Flags) {
+    let len = if args.thorough() { 6usize } else { 5 };
+    let total = 5usize.pow(len as u32);
+    let per_eng = 40usize;
+    let (a, b) = (author(0), author(1));
+    let mut n = 0usize;
+    let mut chunk = 0u64;
+    while n < total {
+        let index = 2_000_000 + chunk;
+        chunk += 1;
+        let upto = (n + per_eng).min(total);
+        if let Some(x) = only_index(args) {
+            if x != index {
+                n = upto;
+                continue;
+            }
+        }
+        let mut rng = hist_rng(args.seed(), 0x1DE, index);
+        let mut eng = Eng::new(rep, prop, cmd, args.seed(), index, flags.clone(), 0);
+        eng.jump_at = None;
+        for h in n..upto {
+            let x = match Ev::new(SemEvent { id: rng.arr32(), pubkey: a, sig: [0x51; 64], kind: 1, created_at: 50, tags: vec![vec!["t".into(), "x".into()]], content: String::new() }) {
+                Some(x) => x,
+                None => continue,
+            };
+            let mut code = h;
+            for _ in 0..len {
+                let sym = code % 5;
+                code /= 5;
+                if eng.aborted {
+                    break;
+                }
+                let mk = |rng: &mut Rng, pk: Id32, kind: u16, tags: Vec<Vec<String>>| Ev::new(SemEvent { id: rng.arr32(), pubkey: pk, sig: [0x51; 64], kind, created_at: 60, tags, content: String::new() });
+                match sym {
+                    0 => {
+                        let _ = eng.store(&x);
+                    }
+                    1 => {
+                        if let Some(d) = mk(&mut rng, a, 5, vec![vec!["e".into(), hex(&x.sem.id)]]) {
+                            let _ = eng.store(&d);
+                        }
+                    }
+                    2 => {
+                        let absent = rng.arr32();
+                        if let Some(d) = mk(&mut rng, b, 5, vec![vec!["e".into(), hex(&absent)], vec!["e".into(), hex(&x.sem.id)]]) {
+                            let _ = eng.store(&d);
+                        }
+                    }
+                    3 => eng.remove(&x.sem.id),
+                    _ => {
+                        if let Some(e) = mk(&mut rng, a, 1, vec![]) {
+                            let _ = eng.store(&e);
+                        }
+                    }
+                }
+            }
+            eng.rep.count("enumerated_id_histories");
+        }
+        finish_history(&mut eng, true);
+        n = upto;
+    }
+}
+
 fn only_index(args: &Args) -> Option<u64> {
     args.get("index").and_then(|s| s.parse().ok())
 }
@@ -691,6 +758,11 @@ pub fn c10(args: &Args) -> Report {
     if only_index(args).is_none() {
         c10_readers_exhausted(&mut rep, args);
     }
+    {
+        let mut flags = base_flags();
+        flags.foreign_delete_guard = true;
+        enumerated_id_histories(&mut rep, args, "C10", "c10", flags);
+    }
     let n = if args.thorough() { 8000 } else { 450 };
     for i in 0..n {
         if let Some(x) = only_index(args) {
@@ -789,7 +861,8 @@ pub fn c11(args: &Args) -> Report {
     {
         let mut flags = base_flags();
         flags.marker_monotonic = true;
-        enumerated_address_histories(&mut rep, args, "C11", "c11", flags);
+        enumerated_address_histories(&mut rep, args, "C11", "c11", flags.clone());
+        enumerated_id_histories(&mut rep, args, "C11", "c11", flags);
     }
     if only_index(args).is_none() {
         rep.require("enumerated_address_histories", "the enumerated address histories did not run");
@@ -1010,7 +1083,8 @@ pub fn c12(args: &Args) -> Report {
     {
         let mut flags = base_flags();
         flags.snapshot_failed_stores = true;
-        enumerated_address_histories(&mut rep, args, "C12", "c12", flags);
+        enumerated_address_histories(&mut rep, args, "C12", "c12", flags.clone());
+        enumerated_id_histories(&mut rep, args, "C12", "c12", flags);
     }
     pocket_db::verif::set_fail_handler(None);
     if only_index(args).is_none() {
@@ -1461,7 +1535,13 @@ pub fn c18(args: &Args) -> Report {
         }
         finish_history(&mut eng, nt);
     }
+    {
+        let mut flags = base_flags();
+        flags.reread_offsets = true;
+        enumerated_id_histories(&mut rep, args, "C18", "c18", flags);
+    }
     if only_index(args).is_none() {
+        rep.require("enumerated_id_histories", "the enumerated id histories did not run");
         rep.require("removed_present", "no present event removed");
         rep.require("removed_absent", "no absent id removed");
         rep.require("vanish_targets", "vanish had no target");
